@@ -373,6 +373,24 @@ def main():
             lines += ["check(%s)" % shape(d, l) for d in (14, 20, top) for l in ("alpha", "beta")]
             lines += [pair % ab for ab in ((1, 1), (1, 2))]
             add("deep-nesting", DEEP_PATCH, {"a.go": ("package p\n\nfunc h() {\n\t" + "\n\t".join(lines) + "\n}\n").encode()})
+    # lists with many elisions whose last explicit element occurs nowhere (or only too early): every way of placing the
+    # sections before it must not be tried again and again - with literal elements, with distinct metavariables, with one
+    # metavariable repeated, in argument lists, composite literals and statement blocks
+    for k in ((6, 9) if not thorough else (5, 7, 9, 12)):
+        for n in ((28, 40) if not thorough else (24, 32, 40, 64)):
+            for elems, hdr in ((["1"] * k, ""),
+                               (["v%d" % i for i in range(k)], "var " + ", ".join("v%d" % i for i in range(k)) + " expression\n"),
+                               (["x"] * k, "var x expression\n"),
+                               ((["x", "y"] * k)[:k], "var x, y expression\n")):
+                for last in ("2", "1"):
+                    pat = ", ".join("..., " + e for e in elems) + ", ..., " + last
+                    add("many-elisions", ("@@\n%s@@\n-foo(%s)\n+bar()\n" % (hdr, pat)).encode(),
+                        {"a.go": ("package p\n\nfunc h() {\n\tfoo(%s)\n\t_ = []int{%s}\n}\n" % (", ".join(["1"] * n), ", ".join(["1"] * n))).encode()})
+                    add("many-elisions", ("@@\n%s@@\n-[]int{%s}\n+nil\n" % (hdr, pat)).encode(),
+                        {"a.go": ("package p\n\nfunc h() {\n\t_ = []int{%s}\n}\n" % ", ".join(["1"] * n)).encode()})
+            spat = "\n".join(" ...\n-s(%s)" % ("1" if i < k else "2") for i in range(k + 1))
+            add("many-elisions", ("@@\n@@\n%s\n+t()\n" % spat).encode(),
+                {"a.go": ("package p\n\nfunc h() {\n%s\n}\n" % "\n".join("\ts(1)" for _ in range(n))).encode()})
     # description comments of every shape above a change that applies, in the modes that echo them
     DESCS = ["#", "# ", "#\t", "##", "# -----", "#=====", "# text\n#\n# more", "#\n#\n#", "# \xc3\xa9", "#" + "x" * 300, "# a\n\n# b", "#!", "# %s %d %%", "#\r"]
     for dsc in DESCS:
